@@ -5,6 +5,9 @@ Switches (two variants of the source are recognised, the model is parametrised b
   identBaseAll      identityref_check_base(): does the loop over type->bases require derivation from EVERY base (repaired, F410) or
                     does it stop at the first base the identity is derived from (pinned tree)?
   identSortModule   lyplg_type_sort_identityref(): is the module name compared when the identity names are equal (repaired, F411)?
+  dtSortClamped     lyplg_type_sort_date_and_time(): sign of the time difference (repaired, F413) or `(int)difftime(..)` (pinned tree)?
+  dtZoneSignFromChar / dtZoneHourLowerBound   ly_time_str2time(): sign of the zone minutes also from the '-' character (repaired, F415),
+                    zone hours below -23 refused (repaired, F416)
 Constant:
   unionIdxSize      TYPE_IDX_SIZE of union.c (bytes of the member index in the LYB form)
 
@@ -91,6 +94,11 @@ def gen_valext():
         ("length, then patterns of the compiled type, unless STORE_ONLY",
          "if(!(options&LYPLG_TYPE_STORE_ONLY)){if(type_str->length){ret=lyplg_type_validate_range(LY_TYPE_STRING,type_str->length,ly_utf8len(value,value_len),value,value_len,err);"
          "LY_CHECK_GOTO(ret,cleanup);}ret=lyplg_type_validate_patterns(type_str->patterns,value,value_len,err);LY_CHECK_GOTO(ret,cleanup);}")])
+    b = body_of("schema_compile_node.c", "lys_compile_type_patterns")
+    need("lys_compile_type_patterns", b, [
+        ("the patterns of the base type come first, then the type's own, in order",
+         "if(base_patterns){*patterns=lysc_patterns_dup(ctx->ctx,base_patterns);LY_CHECK_ERR_RET(!(*patterns),LOGMEM(ctx->ctx),LY_EMEM);}"
+         "LY_ARRAY_FOR(patterns_p,u){LY_ARRAY_NEW_RET(ctx->ctx,(*patterns),pattern,LY_EMEM);")])
     b = body_of("plugins_types.c", "lyplg_type_validate_patterns")
     need("lyplg_type_validate_patterns", b, [
         ("every pattern of the array", "LY_ARRAY_FOR(patterns,u){r=ly_pattern_code_match(patterns[u]->code,str,str_len,err);"),
@@ -133,6 +141,46 @@ def gen_valext():
         ("recursion through the derived arrays", "LY_ARRAY_FOR(base->derived,u){if(der==base->derived[u]){returnLY_SUCCESS;}"
          "if(!lyplg_type_identity_isderived(base->derived[u],der)){returnLY_SUCCESS;}}returnLY_ENOTFOUND;")])
 
+    # ---------------------------------------------------------------------------------------------- date_and_time.c / ly_time_str2time
+    b = body_of("plugins_types/date_and_time.c", "lyplg_type_sort_date_and_time")
+    cast_shape = "dt=difftime(v1->time,v2->time);if(dt!=0){returndt;}returnlyplg_type_sort_by_fractions(v1->fractions_s,v2->fractions_s);}"
+    sign_shape = "dt=difftime(v1->time,v2->time);if(dt<0){return-1;}elseif(dt>0){return1;}returnlyplg_type_sort_by_fractions(v1->fractions_s,v2->fractions_s);}"
+    dt_sort_clamped = sign_shape in b
+    if (cast_shape in b) == dt_sort_clamped:
+        missing.append("lyplg_type_sort_date_and_time: comparison of the timestamps of an unknown shape")
+    b = body_of("tree_data_common.c", "ly_time_str2time")
+    hour_up = "shift=strtol(value,&ptr,10);if(shift>23){"
+    hour_both = "shift=strtol(value,&ptr,10);if((shift<-23)||(shift>23)){"
+    dt_zone_lower = hour_both in b
+    if (hour_up in b) == dt_zone_lower:
+        missing.append("ly_time_str2time: range check of the zone hour of an unknown shape")
+    sign_num = "if(shift<0){shift_m*=-1;}"
+    sign_chr = "shift_neg=((shift<0)||(value[0]=='-'))?1:0;shift=shift*60*60;"
+    dt_zone_sign_char = sign_chr in b and "if(shift_neg){shift_m*=-1;}" in b
+    if ((sign_num in b) and "shift_neg" not in b) == dt_zone_sign_char:
+        missing.append("ly_time_str2time: sign of the zone minutes of an unknown shape")
+    need("ly_time_str2time", b, [
+        ("fields read with atoi at the fixed offsets", "tm.tm_year=atoi(&value[0])-1900;tm.tm_mon=atoi(&value[5])-1;tm.tm_mday=atoi(&value[8]);tm.tm_hour=atoi(&value[11]);"
+         "tm.tm_min=atoi(&value[14]);tm.tm_sec=atoi(&value[17]);"),
+        ("range checks", "if((tm.tm_mon<0)||(tm.tm_mon>11)){"), ("day 1..31", "if((tm.tm_mday<1)||(tm.tm_mday>31)){"),
+        ("hours", "if(tm.tm_hour>23){"), ("minutes", "if(tm.tm_min>59){"), ("seconds", "if(tm.tm_sec>60){"),
+        ("timegm, fraction at offset 19", "t=timegm(&tm);i=19;if(value[i]=='.'){++i;frac=&value[i];for(frac_len=0;isdigit(frac[frac_len]);++frac_len){}if(!frac_len){"),
+        ("Z or numeric zone", "if((value[i]=='Z')||(value[i]=='z')){shift=0;}else{value+=i;shift=strtol(value,&ptr,10);"),
+        ("colon after the zone hour", "}elseif(ptr[0]!=':'){"),
+        ("zone minutes 0..59", "value=ptr+1;shift_m=strtol(value,NULL,10);if((shift_m<0)||(shift_m>59)){"),
+        ("shift applied", "shift=shift+shift_m;}t-=shift;*time=t;")])
+    b = body_of("plugins_types/date_and_time.c", "lyplg_type_store_date_and_time")
+    need("lyplg_type_store_date_and_time", b, [
+        ("order: hints, ly_time_str2time, restrictions of the type", "ret=lyplg_type_check_hints(hints,value,value_len,type->basetype,NULL,err);LY_CHECK_GOTO(ret,cleanup);"
+         "if(ly_time_str2time(value,&val->time,&val->fractions_s)){"),
+        ("patterns unless STORE_ONLY", "ret=lyplg_type_validate_patterns(type_dat->patterns,value,value_len,err);LY_CHECK_GOTO(ret,cleanup);}"),
+        ("unknown zone from the last 6 bytes", 'if(!strncmp(((char*)value+value_len)-6,"-00:00",6)){val->unknown_tz=1;}'),
+        ("LYB: size, digits from offset 9", "if(value_len<8){"), ("LYB digits", "for(i=9;i<value_len;++i){c=((char*)value)[i];if(!isdigit(c)){")])
+    b = body_of("plugins_types/date_and_time.c", "lyplg_type_compare_date_and_time")
+    need("lyplg_type_compare_date_and_time", b, [
+        ("instant and unknown-zone flag", "if((v1->time!=v2->time)||(v1->unknown_tz!=v2->unknown_tz)){returnLY_ENOT;}"),
+        ("fractions as strings", "if((!v1->fractions_s&&!v2->fractions_s)||(v1->fractions_s&&v2->fractions_s&&!strcmp(v1->fractions_s,v2->fractions_s))){returnLY_SUCCESS;}returnLY_ENOT;")])
+
     out = ["-- GENERATED by tools/extractors/valx.py from /repo — do not edit. Regenerated on every check run.", "",
            "namespace LyModel.Generated", "",
            "/-- union.c `TYPE_IDX_SIZE`: bytes of the member index in the LYB form of a union value -/",
@@ -143,6 +191,14 @@ def gen_valext():
            "/-- identityref.c `lyplg_type_sort_identityref`: the module name is compared when the identity names are equal (false on the pinned",
            "    tree: names only, finding F411) -/",
            "def identSortModule : Bool := %s" % ("true" if sort_module else "false"),
+           "/-- date_and_time.c `lyplg_type_sort_date_and_time`: the sign of the time difference is returned (repaired, F413); false on the pinned",
+           "    tree: `(int)difftime(..)`, undefined for instants 2^31 s or more apart -/",
+           "def dtSortClamped : Bool := %s" % ("true" if dt_sort_clamped else "false"),
+           "/-- `ly_time_str2time`: the zone minutes are negative also for the hours `-00` (repaired, F415); false on the pinned tree: the sign",
+           "    is taken from the value of the hours -/",
+           "def dtZoneSignFromChar : Bool := %s" % ("true" if dt_zone_sign_char else "false"),
+           "/-- `ly_time_str2time`: zone hours below -23 are refused (repaired, F416); false on the pinned tree: only `> 23` is checked -/",
+           "def dtZoneHourLowerBound : Bool := %s" % ("true" if dt_zone_lower else "false"),
            "", "end LyModel.Generated", ""]
     return "\n".join(out), missing
 
